@@ -36,6 +36,9 @@ For each patch also write a **demonstration**: a small stand-alone Python script
 * Start from a clean tree for each patch: `git -C {wt} diff > <file>; git -C {wt} checkout -- .` between the two (do NOT use `git stash`: the stash is shared by every worktree of the repository and other agents work in sibling worktrees).
 * Verify each demo both ways (fails with the patch, passes without: `git -C {wt} diff > p.diff; git -C {wt} checkout -- .; run; git -C {wt} apply p.diff` -- never `git stash`).
 * Save your results under `{out}/1/` and `{out}/2/` (create the directories): `patch.diff` (output of `git -C {wt} diff` with ONLY the source change, not the demo), `demo.py`, and `notes.md` (what the change is, why it breaks the property, what it needs in order to manifest, exactly which test commands you ran and their pass/fail counts).
+* The machine is shared with other jobs: use at most `-n 4`, and do not run the entire test-suite (it is run on your patches afterwards); run the test modules next to your change and the directories named above.
+* `pydra/utils/_version.py` in the worktree is a git-ignored generated file that was copied in for you; leave it there, never include it in a patch.
+* If, while exploring, you find that the UNCHANGED tree already violates the property for some input, schedule or history, that is valuable: write a repro script under `{out}/existing/` (exit 1 when the violation shows, run the same way as the demos) and describe it in your report.
 * Leave the worktree clean at the end (`git -C {wt} checkout -- .`; remove untracked files you created in it).
 
 Report back briefly: for each of the two patches a 3-line summary (site changed, what breaks, what is needed to manifest) and whether the demo/test verification succeeded. If you could only produce one convincing patch, say so.""")
